@@ -4,6 +4,7 @@ import os
 import tempfile
 
 from common import Rng
+import pkgcase
 
 PROP = 'C12'
 MODEL_OPS = 'SedIOM.sed_roundtrip (SedIO.write_fixed + read with need_reverse), SedIOM.cube_roundtrip'
@@ -81,11 +82,9 @@ def impl(case):
             p = os.path.join(d, 'a_sed.fits')
             s.write(p)
             if case.get('stored') == 'decr':      # SED.write always stores increasing frequency; files stored the other way round exist too
-                import pkgcase
-                pkgcase.store_decreasing(p)
+                    pkgcase.store_decreasing(p)
             if case.get('columns') == 'reordered':      # "the order of the columns is not important" (package format page)
-                import pkgcase
-                pkgcase.reorder_columns(p)
+                    pkgcase.reorder_columns(p)
             # the units wavelengths / frequencies are asked in (returned values are converted back and snapped to the stored wavelength within 1e-12)
             uw, uf = u.Unit(case.get('unit_wav', 'micron')), u.Unit(case.get('unit_freq', 'Hz'))
 
@@ -131,6 +130,8 @@ def impl(case):
             dec.write(os.path.join(d, 'decoy.fits'))
             p = os.path.join(d, 'flux.fits')
             c.write(p)
+            if case.get('columns') == 'reordered':      # SPECTRAL_INFO with FREQUENCY before WAVELENGTH
+                pkgcase.reorder_cube_columns(p)
             for o in ('nu', 'wav'):
                 r = SEDCube.read(p, order=o, memmap=case['memmap'])
                 seds = []
